@@ -57,29 +57,31 @@ type c18ErrList []string
 func (e c18ErrList) Error() string { return fmt.Sprint([]string(e)) }
 
 type c18Inv struct {
-	n         int
-	script    c18Script
-	inner     error // the innermost error a fatal ending wraps
-	calls     []*c18Call
-	started   bool
-	inOp      bool
-	ended     bool // the ending call (success / fatal) has returned
-	returned  bool
-	logAtInv  int
-	randAtInv int
-	invokedAt int64 // stamp taken right before the retry function was invoked
-	logAtRet  int
+	n           int
+	script      c18Script
+	inner       error // the innermost error a fatal ending wraps
+	calls       []*c18Call
+	started     bool
+	inOp        bool
+	ended       bool // the ending call (success / fatal) has returned
+	returned    bool
+	logAtInv    int
+	randAtInv   int
+	invokedAt   int64 // stamp taken right before the retry function was invoked
+	logAtRet    int
+	ctxErrAtRet error // the context's Err() read right after the retry function returned
 }
 
 type c18State struct {
-	rate, eff time.Duration
-	rid       int // task id of the task running the retry function
-	ctx       context.Context
-	cancel    context.CancelFunc
-	cancelInv int64
-	cancelRet int64
-	cur       *c18Inv
-	total     int // operation calls over all invocations
+	rate, eff  time.Duration
+	rid        int // task id of the task running the retry function
+	ctx        context.Context
+	cancel     context.CancelFunc
+	cancelInv  int64
+	cancelRet  int64
+	byDeadline bool // the context also has a deadline
+	cur        *c18Inv
+	total      int // operation calls over all invocations
 }
 
 func (st *c18State) doCancel(where string) {
@@ -240,7 +242,31 @@ func c18Retry() {
 	}
 
 	st := &c18State{rate: rate, eff: eff, rid: -1}
-	st.ctx, st.cancel = context.WithCancel(context.Background())
+	switch simrt.Draw(5) {
+	default:
+		st.ctx, st.cancel = context.WithCancel(context.Background())
+	case 0:
+		// cancelled with a cause: the retry function still returns the context's error (Err), not the cause
+		ctx, cc := context.WithCancelCause(context.Background())
+		st.ctx, st.cancel = ctx, func() { cc(errors.New("application cause")) }
+		simrt.Probe("context_with_cancel_cause")
+	case 1:
+		// a deadline some slots away: it may fall into a call, into a wait (which it cuts short, and not a
+		// moment earlier), or after the end; the cancel plan still applies, whichever comes first
+		st.byDeadline = true
+		far := eff * time.Duration([]int{1, 2, 3, 5, 9, 17, 40, 200}[simrt.Draw(8)])
+		st.ctx, st.cancel = context.WithTimeout(context.Background(), far)
+		simrt.Probe("context_with_deadline")
+		go func() {
+			<-st.ctx.Done()
+			if st.cancelInv == 0 {
+				// the deadline passed (some steps ago): from here on it counts as a completed cancellation
+				simrt.Probe("context_ended_by_deadline")
+				st.cancelInv = simrt.Stamp()
+				st.cancelRet = st.cancelInv
+			}
+		}()
+	}
 	trig := make(chan struct{})
 	trigClosed := false
 	fire := func() {
@@ -441,11 +467,11 @@ func c18Retry() {
 				return false
 			}
 		default:
-			if st.cancelInv == 0 {
-				simrt.Failf("C18.spurious-return", "invocation %d returned (%v, %v) after %d calls without success, fatal error or cancellation", inv.n, res, err, len(inv.calls))
+			if (st.cancelInv == 0 && !st.byDeadline) || inv.ctxErrAtRet == nil {
+				simrt.Failf("C18.spurious-return", "invocation %d returned (%v, %v) after %d calls without success, fatal error or cancellation (the context's Err() right after the return: %v)", inv.n, res, err, len(inv.calls), inv.ctxErrAtRet)
 				return false
 			}
-			if res != nil || err == nil || err != context.Canceled || err != st.ctx.Err() {
+			if res != nil || err == nil || (err != context.Canceled && !st.byDeadline) || err != st.ctx.Err() {
 				simrt.Failf("C18.wrong-result", "invocation %d was cut by cancellation after %d calls (all plain errors) but returned (%v, %v) instead of (nil, ctx.Err())", inv.n, len(inv.calls), res, err)
 				return false
 			}
@@ -471,6 +497,7 @@ func c18Retry() {
 			inv.invokedAt = simrt.Stamp()
 			inv.randAtInv = len(simrt.RandLog())
 			res, err := fn()
+			inv.ctxErrAtRet = st.ctx.Err()
 			inv.returned = true
 			inv.logAtRet = len(simrt.TimerLog())
 			if simrt.Failed() || !verify(inv, res, err) {
